@@ -262,8 +262,8 @@ def _self_properties_to_attributes(tree):
 def _sink_attribute_copies(tree):
     """Second canonical form: a local that only serves to build the object stored in an instance attribute
     (`t = <expr>` in one or more branches, possibly `t.flags... = ...`, then `self.A = t`) is replaced by the
-    attribute itself, so that rules see `self.A = <expr>` in each branch.  (For the analysis the attribute is thereby
-    considered set slightly earlier, which only makes the rules see more.)"""
+    attribute itself, so that rules see `self.A = <expr>` in each branch.  The attribute is thereby considered set
+    slightly earlier; the rewrite is applied only when nothing in between can observe the attribute (see below)."""
     for fn in [n for n in ast.walk(tree) if isinstance(n, ast.FunctionDef)]:
         a = fn.args
         params = {x.arg for x in a.posonlyargs + a.args + a.kwonlyargs}
@@ -299,6 +299,25 @@ def _sink_attribute_copies(tree):
                                           x.value.id == 'self' for b in between for x in ast.walk(b)):
                     continue
             if sum(1 for b, c in copies if c.value.id == t) != 1:
+                continue
+            # sound only when nothing between the first definition and the copy can observe the attribute: a call that
+            # involves `self` (a method of the object, or the object handed to a function) or a read of the attribute in
+            # that span would see the new value too early in the rewritten form (e.g. a README generated from the handle
+            # before the handle's shape is updated)
+            first = min(d.lineno for d in defs)
+            observed = False
+            for x in ast.walk(fn):
+                if not isinstance(x, ast.stmt) or x is st or x in defs or not (first < x.lineno < st.lineno):
+                    continue
+                if isinstance(x, (ast.If, ast.For, ast.While, ast.With, ast.Try)):
+                    continue        # their simple statements are visited on their own
+                for y in ast.walk(x):
+                    if isinstance(y, ast.Call) and any(isinstance(z, ast.Name) and z.id == 'self' for z in ast.walk(y)):
+                        observed = True
+                    if isinstance(y, ast.Attribute) and y.attr == attr and isinstance(y.value, ast.Name) and \
+                            y.value.id == 'self' and isinstance(y.ctx, ast.Load):
+                        observed = True
+            if observed:
                 continue
 
             class R(ast.NodeTransformer):
